@@ -36,8 +36,6 @@ SHAPE_KEYS: set[tuple[str, str]] = {
     ("C24.R3", "others-init"),
     ("C25.R3", "results-without-dependency"),
     ("C25.R4", "initialize"),
-    ("C26.R1", "not-exhaustive"),
-    ("C26.R1", "token-unparsed"),
     ("C29.R1", "descent-without-table-check"),
     ("C29.R1", "private-check-wrong-op"),
     ("C29.R2", "advance"),
